@@ -307,24 +307,21 @@ func c14Step(s *server, m *c14Model, tag string) {
 			}
 		}
 		vReach("c14-drop")
-	case 5: // ReadModifyWriteRow append on a (possibly dropped or never created) family
+	case 5: // ReadModifyWriteRow append on a dropped or never created family (or a missing table): rejected
 		t := vChoice("rmw.tbl", 0, vBound("set-tables", 0, 2))
 		r := vChoice("rmw.row", 0, 1)
 		fam := c14Fams[vChoice("rmw.fam", 0, 2)]
+		mt := m.tbl[t]
+		if _, have := mt.fams[fam]; mt.exists && have {
+			return // an accepted append would add a cell the model does not track: covered by C13
+		}
 		_, err := s.ReadModifyWriteRow(vCtx(), &btpb.ReadModifyWriteRowRequest{TableName: c14Name(t), RowKey: m.keys[r],
 			Rules: []*btpb.ReadModifyWriteRule{{FamilyName: fam, ColumnQualifier: []byte("q"), Rule: &btpb.ReadModifyWriteRule_AppendValue{AppendValue: []byte("x")}}}})
-		mt := m.tbl[t]
 		if !mt.exists {
 			vAssert(vCodeOf(err) == codes.NotFound, tag+":rmw-missing-notfound")
 			return
 		}
-		_, have := mt.fams[fam]
-		vAssert((err != nil) == !have, tag+":rmw-rejected-iff-family-unknown")
-		if have && err == nil {
-			// the appended cell is written at the server time (0): the model only tracks the cell at ts 1000,
-			// so leave the exact content of this (row, family) to the other checks and stop comparing it
-			vAssume(false)
-		}
+		vAssert(err != nil, tag+":rmw-rejected-iff-family-unknown")
 		vReach("c14-rmw")
 	case 4: // MutateRow SetCell
 		t := vChoice("set.tbl", 0, vBound("set-tables", 0, 2))
